@@ -2,7 +2,7 @@
    implementation responses.  Mismatch tags: "S:" = an observable the property itself
    determines (status class, S3 code, body, ETag, listing contents) — a spec failure;
    "M:" = an ancillary observable only the model fixes (header presence etc.). *)
-From GF Require Import Base.Lit Base.Int64 Model.Mem Model.Handlers Model.Uploader Extract.Checks.
+From GF Require Import Base.Lit Base.Int64 Model.Mem Model.Handlers Model.Uploader Model.Chunk Extract.Checks.
 Open Scope string_scope.
 Open Scope list_scope.
 Open Scope Z_scope.
@@ -42,11 +42,16 @@ Inductive hop :=
 | HComplete (b k uid : list N) (parts : list (Z * list N))
 | HAbort (b k uid : list N)
 | HListParts (b k uid : list N) (marker limit : Z)
-| HListUploads (b pre : list N) (delim : option N) (key_marker id_marker : list N) (limit : Z).
+| HListUploads (b pre : list N) (delim : option N) (key_marker id_marker : list N) (limit : Z)
+| HChunkedPut (b k stream : list N) (sched : list Z) (eofw : bool) (declared : Z) (payload : list N).
 
 Record hstate := { hs_model : state; hs_tbl : list (N * list N);
-                   hs_up : ustate; hs_utbl : list (N * list N) }.
-Definition hinit : hstate := {| hs_model := init; hs_tbl := []; hs_up := uinit; hs_utbl := [] |}.
+                   hs_up : ustate; hs_utbl : list (N * list N);
+                   hs_fs : bool (* fs backend: streams the body into the file *) }.
+Definition hinit : hstate := {| hs_model := init; hs_tbl := []; hs_up := uinit; hs_utbl := []; hs_fs := false |}.
+Definition hinit_fs (fs : bool) : hstate := {| hs_model := init; hs_tbl := []; hs_up := uinit; hs_utbl := []; hs_fs := fs |}.
+Definition with_model (hs : hstate) (s : state) : hstate :=
+  {| hs_model := s; hs_tbl := hs_tbl hs; hs_up := hs_up hs; hs_utbl := hs_utbl hs; hs_fs := hs_fs hs |}.
 
 (* version id translation: implementation string <-> model rank *)
 Fixpoint tbl_id (t : list (N * list N)) (s : list N) : option N :=
@@ -149,7 +154,7 @@ Definition obj_step (md5 : list N -> list N) (c : config) (hs : hstate) (o : hop
   : hstate * list (list N) :=
   let t := hs_tbl hs in
   let '(s', r) := step c (hs_model hs) (to_op t o) in
-  let mk t' := {| hs_model := s'; hs_tbl := t'; hs_up := hs_up hs; hs_utbl := hs_utbl hs |} in
+  let mk t' := {| hs_model := s'; hs_tbl := t'; hs_up := hs_up hs; hs_utbl := hs_utbl hs; hs_fs := hs_fs hs |} in
   match r with
   | RErr e => (mk t, exp_err e ob (is_head_op o))
   | ROk => (mk t, exp_ok ob)
@@ -256,7 +261,7 @@ Definition up_step (md5 : list N -> list N) (c : config) (hs : hstate) (o : hop)
   let ut := hs_utbl hs in
   let u := hs_up hs in
   let s := hs_model hs in
-  let mk s' u' ut' := {| hs_model := s'; hs_tbl := hs_tbl hs; hs_up := u'; hs_utbl := ut' |} in
+  let mk s' u' ut' := {| hs_model := s'; hs_tbl := hs_tbl hs; hs_up := u'; hs_utbl := ut'; hs_fs := hs_fs hs |} in
   match o with
   | HInitiate b k m =>
       match ensure_bucket c s b with
@@ -315,9 +320,34 @@ Definition up_step (md5 : list N -> list N) (c : config) (hs : hstate) (o : hop)
   | _ => (hs, [])
   end.
 
+(* PUT with STREAMING-AWS4-HMAC-SHA256-PAYLOAD framing *)
+Definition chunked_put_step (md5 : list N -> list N) (c : config) (hs : hstate) (o : hop) (ob : obs)
+  : hstate * list (list N) :=
+  match o with
+  | HChunkedPut b k stream sched eofw declared payload =>
+      let spec := if declared =? blen payload then [] else expect (negb (ok_status (ob_status ob))) "S:wrong-declared-length-accepted" in
+      match ensure_bucket c (hs_model hs) b with
+      | (s1, Some e) => (with_model hs s1, exp_err e ob false)
+      | (s1, None) =>
+          if declared <? 0 then (with_model hs s1, expect (negb (ob_panic ob)) "S:panic" ++ expect (ob_status ob =? 400) "S:status") else
+          let r := mk_reader stream sched eofw in
+          (* every backend reads the body with ReadAll(reader, declared) before storing *)
+          match decode_readall r declared with
+          | DOk p =>
+              match put_object s1 b k p [] with
+              | (s2, _) => (with_model hs s2, exp_ok ob ++ expect (beq (ob_etag ob) (etag_of md5 p)) "S:put-etag" ++ spec)
+              end
+          | _ => (with_model hs s1, expect (negb (ob_panic ob)) "S:panic" ++
+                                    expect (negb (ok_status (ob_status ob))) "S:malformed-or-wrong-length-accepted")
+          end
+      end
+  | _ => (hs, [])
+  end.
+
 Definition hist_step (md5 : list N -> list N) (c : config) (hs : hstate) (o : hop) (ob : obs)
   : hstate * list (list N) :=
   match o with
+  | HChunkedPut _ _ _ _ _ _ _ => chunked_put_step md5 c hs o ob
   | HInitiate _ _ _ | HUploadPart _ _ _ _ _ | HComplete _ _ _ _ | HAbort _ _ _
   | HListParts _ _ _ _ _ | HListUploads _ _ _ _ _ _ => up_step md5 c hs o ob
   | _ => obj_step md5 c hs o ob
